@@ -263,6 +263,22 @@ func c15Ops(names []string) ([]asmOp, error) {
 			out = append(out, asmOp{name: n, real: func(e *asm.Emitter) { e.EmitBytes(dataBlock(kk)) }, model: func(m *asmModel) bool { return !m.emit(itData, dataBlock(kk), -1) }, kind: itData})
 			continue
 		}
+		var an, ad int
+		if _, err := fmt.Sscanf(n, "EmitBytesAliased(%d,%d)", &an, &ad); err == nil {
+			// the data block is a view of the emitter's own target buffer that overlaps the place it is
+			// emitted to (the caller prepared it in the free part of its buffer, or repeats emitted bytes)
+			nn, dd := an, ad
+			out = append(out, asmOp{name: n, kind: itData, real: func(e *asm.Emitter) {
+				t := e.Bytes()
+				t = t[:cap(t)]
+				off := e.Len()
+				for i := off; i < len(t); i++ {
+					t[i] = byte(0x31 + i*5)
+				}
+				e.EmitBytes(t[off+dd : off+dd+nn])
+			}, model: func(m *asmModel) bool { return true }})
+			continue
+		}
 		o, err := opsByName([]string{n})
 		if err != nil {
 			return nil, err
@@ -318,6 +334,15 @@ func runC15(r *report.Run) {
 			)
 		}
 	}
+	// data blocks that alias the target buffer and overlap their destination
+	for _, v := range variants {
+		for _, n := range []int{1, 8, 16, 17, 33} {
+			for _, d := range []int{-3, -1, 1, 4, 16, 33} {
+				ea := fmt.Sprintf("EmitBytesAliased(%d,%d)", n, d)
+				sweep = append(sweep, dl{v, []string{"LDA_abs($1234)", "NOP", ea, "NOP"}, 4 + 2*n + 40})
+			}
+		}
+	}
 	var nd int64
 	par.For(len(sweep), func(_, i int) {
 		s := sweep[i]
@@ -339,7 +364,7 @@ func runC15(r *report.Run) {
 	r.Set("histories", hist)
 	r.Set("data_length_cases", nd)
 	r.Set("bounds", map[string]interface{}{"history_depth": depth, "alphabet": len(asmAlphabet()), "constructor_variants": len(variants), "data_lengths": fmt.Sprintf("0..%d", maxLen)})
-	r.Set("rule", "every call sequence up to the depth with listing generation on under every base variant (base unset, four bases, and a comment or label issued before SetBase), listings taken before and after Finalize: the hex listing's 0x??, tokens left of any // must concatenate to exactly Bytes(); the text listing is walked item by item against the reference model (base directive before the first line issued after SetBase, label/comment lines where issued, instruction lines with the true address and the bytes Bytes() holds there, data blocks covered contiguously exactly once); no error, no panic, Bytes() unchanged; plus a data-length sweep 0..N alone, next to instructions and in an exactly-sized buffer")
+	r.Set("rule", "every call sequence up to the depth with listing generation on under every base variant (base unset, four bases, and a comment or label issued before SetBase), listings taken before and after Finalize: the hex listing's 0x??, tokens left of any // must concatenate to exactly Bytes(); the text listing is walked item by item against the reference model (base directive before the first line issued after SetBase, label/comment lines where issued, instruction lines with the true address and the bytes Bytes() holds there, data blocks covered contiguously exactly once); no error, no panic, Bytes() unchanged; plus a data-length sweep 0..N alone, next to instructions and in an exactly-sized buffer, and data blocks that are overlapping views of the target buffer itself")
 	r.Sample(asmHistory{Variant: variants[2], Ops: []string{"Label(a)", "EmitBytes(17)", "BNE(a)", "Comment(200 chars)"}, Capacity: 256})
 	r.Assume("the 16-per-line chunking of data blocks is not required, only contiguous exact coverage")
 }
